@@ -89,8 +89,8 @@ theorem srun_qrun (ops : List (Op × (Nat → Bool))) (sp : St × Parked) (h : Q
   | cons o ops ih => exact ih _ (step_qrun sp.1 sp.2 o.2 o.1 h)
 
 theorem InitLike.qrun {s : St} (h : InitLike s) (hp : s.panicked = none) (hw : s.writing = none)
-    (hc : s.cfg.blocksHaveData = true) (hd : s.doVerify = false) : QRun s := by
-  refine ⟨h.np hp hw hc, DV.of_false hd, ?_⟩
+    (hd : s.doVerify = false) : QRun s := by
+  refine ⟨h.np hp (noFuture_of_none hw), DV.of_false hd, ?_⟩
   unfold workersQuiet workersPending
   simp [h.stopAnn, h.allocator, h.verifier, hw]
 
